@@ -230,6 +230,8 @@ func e2Programs(thorough bool) []*c04Prog {
 					base := strings.TrimSuffix(strings.TrimSuffix(n, "0"), "Ch")
 					early := fmt.Sprintf("type Early struct{ A int }\n\nfunc NewEarly(b *%s) *Early { return &Early{} }\n\nvar _ = kessoku.Inject[*Early](\n\t\"InitEarly\",\n\t%s,\n\tkessoku.Provide(NewEarly),\n)\n\n", base, wrap(mode, "New"+n+"Base"))
 					src2 := strings.Replace(src, "var _ = kessoku.Inject[*R](", early+"var _ = kessoku.Inject[*R](", 1)
+					// the base type is discovered (and named) BEFORE its look-alike in this injector
+					src2 = strings.Replace(src2, "func NewR(n *"+typeName+", y *Y, b *"+base+") *R", "func NewR(b *"+base+", n *"+typeName+", y *Y) *R", 1)
 					out = append(out, &c04Prog{Family: "E2", Name: "name " + n + " (type-and-base, after an earlier injector that uses the base type) " + mode, Files: map[string]string{"k.go": src2}, Invoke: [][]string{{"k.go"}},
 						Pre: "name=" + n + ",shape=type-and-base-after-base,mode=" + mode})
 				}
